@@ -53,6 +53,7 @@ type fnExec struct {
 	depth   int
 	nret    int
 	kwCache map[StrV]string
+	objs    map[string][]string // heap type -> addresses of objects the function holds direct references to
 	strLits map[string]StrV
 }
 
@@ -74,6 +75,7 @@ type frame struct {
 	exits   []*Exit
 	recoverV *IfV // value returned by recover() in this frame (inlined deferred closures)
 	recovered bool
+	cells       map[string]*ssa.Alloc // address-taken variables by name
 	sliceOrigin map[ssa.Value]PtrV // slices of local arrays (a callee may write through them)
 	top       bool // the activation of the function under contract itself
 	loops   map[*ssa.BasicBlock]*loopInfo
@@ -474,7 +476,7 @@ func (fr *frame) enterBlock(b *ssa.BasicBlock, edges []edge) *State {
 	if fr.c == nil {
 		panic(unsupported("loop in a function without contract: " + fr.fn.String()))
 	}
-	lc := fr.c.Loops[li.ordinal]
+	lc := fr.loopContract(li)
 	if lc == nil {
 		panic(unsupported(fmt.Sprintf("loop %d of %s has no invariant", li.ordinal, fr.fn.String())))
 	}
@@ -608,14 +610,16 @@ func (fr *frame) loopEnv(li *loopInfo, st *State) *Env {
 func (fr *frame) havocLoop(li *loopInfo, st *State) {
 	fx := fr.fx
 	type target struct {
-		leaf string
-		sort Sort
-		addr string // "" = whole array
+		leaf   string
+		sort   Sort
+		addr   string // "" = whole array
+		except string
 	}
 	var targets []target
 	addTarget := func(leaf string, sort Sort, addr string) {
-		targets = append(targets, target{leaf, sort, addr})
+		targets = append(targets, target{leaf, sort, addr, ""})
 	}
+	entryNow := st.now
 	definedOutside := func(v ssa.Value) bool {
 		switch x := v.(type) {
 		case *ssa.Parameter, *ssa.FreeVar, *ssa.Const, *ssa.Global, *ssa.Function:
@@ -630,6 +634,93 @@ func (fr *frame) havocLoop(li *loopInfo, st *State) {
 		blocks = append(blocks, b)
 	}
 	sort.Slice(blocks, func(i, j int) bool { return blocks[i].Index < blocks[j].Index })
+	// pre-pass: names of the leaves that may be written in the loop (independent of addresses)
+	written := map[string]bool{}
+	for _, b := range blocks {
+		for _, in := range b.Instrs {
+			switch x := in.(type) {
+			case *ssa.Store:
+				if root := addrRoot(x.Addr); root != nil {
+					if al, isAlloc := root.(*ssa.Alloc); isAlloc && li.blocks[al.Block()] {
+						continue
+					}
+				}
+				if base, path, elem, ok := fr.staticAddr(x.Addr); ok {
+					bt := base.Type().Underlying().(*types.Pointer).Elem()
+					ht := fx.g.heapTypeName(bt)
+					if pv, isP := fr.vals[base].(PtrV); isP && definedOutside(base) {
+						ht = pv.HT + pv.Path
+					}
+					for _, l := range fx.g.leaves(elem) {
+						written[ht+path+l.Path] = true
+					}
+				}
+			case ssa.CallInstruction:
+				cc := x.Common()
+				if callee := cc.StaticCallee(); callee != nil {
+					if c2 := fx.g.contractFor(callee); c2 != nil && c2.PanicKind != "always" {
+						var as []Val
+						for _, a := range cc.Args {
+							as = append(as, fr.freshVal("hv", a.Type()))
+						}
+						for _, m := range c2.Modifies {
+							for _, l := range fx.modLocs(callee, c2, m, as, st) {
+								written[l.leaf] = true
+							}
+						}
+					}
+				}
+			}
+		}
+	}
+	viaWritten := func(leaves []string) bool {
+		for _, l := range leaves {
+			if written[l] {
+				return true
+			}
+		}
+		return false
+	}
+	// a load (inside the loop) of a field that no iteration writes, through a loop-invariant base,
+	// has the same value in every iteration: it is evaluated in the state at loop entry
+	var invariantVal func(v ssa.Value) (Val, bool)
+	invariantVal = func(v ssa.Value) (Val, bool) {
+		if definedOutside(v) {
+			return fr.val(v), true
+		}
+		switch x := v.(type) {
+		case *ssa.UnOp:
+			if x.Op != token.MUL {
+				return nil, false
+			}
+			pv, ok := invariantVal(x.X)
+			if !ok {
+				return nil, false
+			}
+			p, isP := pv.(PtrV)
+			if !isP || strings.HasPrefix(p.HT, "global:") {
+				return nil, false
+			}
+			for _, l := range fx.g.leaves(p.Elem) {
+				if written[p.HT+p.Path+l.Path] {
+					return nil, false
+				}
+			}
+			return fx.load(st, p), true
+		case *ssa.FieldAddr:
+			pv, ok := invariantVal(x.X)
+			if !ok {
+				return nil, false
+			}
+			p, isP := pv.(PtrV)
+			if !isP {
+				return nil, false
+			}
+			f := structOf(p.Elem).Field(x.Field)
+			return PtrV{Addr: p.Addr, HT: p.HT, Path: p.Path + "." + f.Name(), Elem: f.Type(), Local: p.Local}, true
+		}
+		return nil, false
+	}
 	for _, b := range blocks {
 		for _, in := range b.Instrs {
 			switch x := in.(type) {
@@ -673,6 +764,25 @@ func (fr *frame) havocLoop(li *loopInfo, st *State) {
 							continue
 						}
 					}
+					if par, ok := cc.Value.(*ssa.Parameter); ok && fx.c != nil && fx.c.FParams[par.Name()] != "" {
+						sc := fx.g.schemaByName(fx.c.FParams[par.Name()])
+						pv, has := fx.penv["p"]
+						if sc != nil && has {
+							env := &Env{fx: fx, vars: map[string]TV{"p": pv}, cur: st, old: st, pkg: fx.fn.Pkg.Pkg}
+							for _, m := range sc.C.Modifies {
+								for _, l := range fx.modLocsEnv(env, m, st) {
+									if l.addr == "" && l.except != "" {
+										targets = append(targets, target{l.leaf, l.sort, "", l.except})
+									} else if l.addr != "" && !fr.leafWrittenInLoop(li, l.viaLeaves) && !viaWritten(l.viaLeaves) {
+										addTarget(l.leaf, l.sort, l.addr)
+									} else {
+										addTarget(l.leaf, l.sort, "")
+									}
+								}
+							}
+							continue
+						}
+					}
 					panic(unsupported("dynamic call inside a loop: " + in.String()))
 				}
 				c2 := fx.g.contractFor(callee)
@@ -685,26 +795,25 @@ func (fr *frame) havocLoop(li *loopInfo, st *State) {
 				for _, m := range c2.Modifies {
 					// evaluate the modifies path with arguments that are loop-invariant
 					allOutside := true
+					var as []Val
 					for _, a := range cc.Args {
-						if !definedOutside(a) {
+						if v, ok := invariantVal(a); ok {
+							as = append(as, v)
+						} else {
 							allOutside = false
+							as = append(as, fr.freshVal("hv", a.Type()))
 						}
 					}
-					locs := fx.modLocs(callee, c2, m, func() []Val {
-						var as []Val
-						for _, a := range cc.Args {
-							if definedOutside(a) {
-								as = append(as, fr.val(a))
-							} else {
-								as = append(as, fr.freshVal("hv", a.Type()))
-							}
-						}
-						return as
-					}(), st)
+					locs := fx.modLocs(callee, c2, m, as, st)
 					for _, l := range locs {
-						if allOutside && !fr.leafWrittenInLoop(li, l.viaLeaves) {
+						switch {
+						case l.addr == "" && l.except != "" && allOutside:
+							// "current object or fresh": relative to the loop entry, the objects that
+							// existed then and are not the current one are untouched by any iteration
+							targets = append(targets, target{l.leaf, l.sort, "", l.except})
+						case allOutside && l.addr != "" && !fr.leafWrittenInLoop(li, l.viaLeaves):
 							addTarget(l.leaf, l.sort, l.addr)
-						} else {
+						default:
 							addTarget(l.leaf, l.sort, "")
 						}
 					}
@@ -714,12 +823,33 @@ func (fr *frame) havocLoop(li *loopInfo, st *State) {
 	}
 	done := map[string]bool{}
 	// whole-array havocs first
+	// a leaf havocked "except current-or-fresh" by every writer keeps the frame axiom; any plain
+	// whole-array writer removes it
+	plain := map[string]bool{}
+	exc := map[string]string{}
+	for _, t := range targets {
+		if t.addr == "" {
+			if t.except == "" {
+				plain[t.leaf] = true
+			} else if e, ok := exc[t.leaf]; ok && e != t.except {
+				plain[t.leaf] = true
+			} else {
+				exc[t.leaf] = t.except
+			}
+		}
+	}
 	for _, t := range targets {
 		if t.addr == "" && !done[t.leaf] {
 			done[t.leaf] = true
+			old := fx.heapLeaf(st, t.leaf, t.sort)
 			c := fx.s.fresh("Hl!"+t.leaf, arrOf(t.sort))
 			st.heap[t.leaf] = c
 			fx.g.leafSorts[t.leaf] = t.sort
+			if !plain[t.leaf] && exc[t.leaf] != "" {
+				// stores in the loop body to this leaf at other (old) objects would break the axiom:
+				// only allowed when every writer is a current-or-fresh callee
+				fx.frameAxiom(c, old, exc[t.leaf], entryNow, t.leaf)
+			}
 		}
 	}
 	for _, t := range targets {
@@ -851,7 +981,7 @@ func (fr *frame) addEdge(from, to *ssa.BasicBlock, st *State, cond string, in ma
 	if to.Dominates(from) && fr.loops[to] != nil {
 		// back edge: check invariant and variant
 		li := fr.loops[to]
-		lc := fr.c.Loops[li.ordinal]
+		lc := fr.loopContract(li)
 		s := fx.s
 		bst := st.clone()
 		bst.reach = cond
@@ -924,4 +1054,26 @@ func typeTagName(t types.Type) string {
 	s = strings.ReplaceAll(s, "github.com/cloudspannerecosystem/memefish/", "")
 	s = strings.ReplaceAll(s, "github.com/cloudspannerecosystem/memefish", "memefish")
 	return s
+}
+
+// loopContract: the clauses of loop li: the `loop *` defaults plus the loop's own clauses
+// (its own decreases clause replaces the default one).
+func (fr *frame) loopContract(li *loopInfo) *LoopContract {
+	own, def := fr.c.Loops[li.ordinal], fr.c.Loops[-1]
+	switch {
+	case own == nil && def == nil:
+		return nil
+	case own == nil:
+		return def
+	case def == nil:
+		return own
+	}
+	m := &LoopContract{}
+	m.Invariants = append(append([]*Clause{}, def.Invariants...), own.Invariants...)
+	m.Steps = append(append([]*Clause{}, def.Steps...), own.Steps...)
+	m.Decreases = own.Decreases
+	if m.Decreases == nil {
+		m.Decreases = def.Decreases
+	}
+	return m
 }
